@@ -2,7 +2,7 @@
    theorem: the lexer model cuts `print d doc` exactly at the item boundaries of a well-formed
    document, for every accepted delimiter set. *)
 From Coq Require Import Arith Wf_nat.
-From TeraV Require Import Model.Value Model.Utf8 Model.Lexer Spec.Doc Model.LexerDoc
+From TeraV Require Import Model.Value Model.Utf8Lex Model.Lexer Spec.Doc Model.LexerDoc
   Proofs.Utf8Proofs Proofs.WsFilterProofs.
 Local Open Scope nat_scope.
 
